@@ -136,14 +136,16 @@ func ParsePHC(s string) (*PHC, error) {
 
 	// Decode salt (expect 16 bytes to fit [16]byte)
 	saltB64 := parts[3]
-	var salt [16]byte
-	n, err := base64.RawStdEncoding.Decode(salt[:], []byte(saltB64))
+	// Decode into a buffer sized for the input: decoding straight into the 16 byte array panics on a longer salt.
+	saltBytes, err := base64.RawStdEncoding.DecodeString(saltB64)
 	if err != nil {
 		return nil, fmt.Errorf("invalid salt: %w", err)
 	}
-	if n != 16 {
-		return nil, fmt.Errorf("invalid salt length: got %d, want 16", n)
+	if len(saltBytes) != 16 {
+		return nil, fmt.Errorf("invalid salt length: got %d, want 16", len(saltBytes))
 	}
+	var salt [16]byte
+	copy(salt[:], saltBytes)
 
 	// Decode hash
 	hashB64 := parts[4]
